@@ -397,6 +397,7 @@ func c26Check(c *kit.Case, in c26Input) {
 		c.Failf("node B: SetState gave root %x err %v, node A gave %x", rb[:8], err, groot[:8])
 	}
 	ai := 0
+	skippedOnB := map[int]bool{}
 	for _, ev := range evs {
 		if !ev.Accepted {
 			continue
@@ -411,6 +412,12 @@ func c26Check(c *kit.Case, in c26Input) {
 			}
 			if in.Genesis.Ancestry && strings.Contains(ierr.Error(), "finalized") && c26RejectedOffHeadBefore(evs, ev.Step) {
 				c.Known("KF-C26-2", detail)
+			}
+			if ev.Kind == "dup" && ev.Dirty && ev.Root == acc[ai].Root && ai > 0 && acc[ai].Hash == acc[acc[ai].Parent].Hash {
+				// B keeps its state (it rejected the duplicate): the comparison goes on
+				c.KnownNote("KF-C26-3", detail)
+				skippedOnB[ev.Step] = true
+				continue
 			}
 			c.Failf("%s", detail)
 		}
@@ -441,6 +448,10 @@ func c26Check(c *kit.Case, in c26Input) {
 		for _, e2 := range evs {
 			if e2.Step >= ev.Step || n >= ev.NAccBefore {
 				break
+			}
+			if e2.Accepted && skippedOnB[e2.Step] {
+				n++
+				continue
 			}
 			if e2.Accepted {
 				if _, err := cbImport(P, e2.Block); err != nil {
